@@ -422,7 +422,10 @@ def _send(comm, obj, dest, dtype):
     if dtype is np.ndarray:
         # Partial sums of 0-d arrays are numpy scalars
         obj = np.asarray(obj)
-    assert isinstance(obj, dtype)
+    if dtype in (np.ndarray, Field, MultiField):
+        # Only these have a type-specific wire format. Partial sums of Python
+        # scalars may change their type (bool+bool -> int, int+float -> float)
+        assert isinstance(obj, dtype)
     if dtype is np.ndarray:
         shp_orig = obj.shape
         obj = np.ascontiguousarray(obj).reshape(shp_orig)
